@@ -87,6 +87,23 @@ func parseBlocksCase(c *Ctx, src []byte) {
 	c.Case("ParseBlocks", []string{hx(src)}, res)
 }
 
+func parseTreeCase(c *Ctx, src []byte) {
+	if len(src) > 600 {
+		return
+	}
+	res := ""
+	func() {
+		defer func() {
+			if r := recover(); r != nil {
+				res = "PANIC"
+			}
+		}()
+		doc := coreMD.Parser().Parse(text.NewReader(src))
+		res, _ = dumpTree(doc, src)
+	}()
+	c.Case("ParseTree", []string{hx(src)}, res)
+}
+
 // experiment runner: parser-model cases only
 func init() {
 	runners["PX"] = func(c *Ctx) {
@@ -97,9 +114,11 @@ func init() {
 		regexCases(c, n)
 		for _, e := range loadSpec() {
 			parseBlocksCase(c, []byte(e.Markdown))
+			parseTreeCase(c, []byte(e.Markdown))
 		}
 		docStreams(c, docOpts{blockLines: 2, randLines: n, corpus: true, random: n, mutants: n / 4}, func(stream string, doc []byte) {
 			parseBlocksCase(c, doc)
+			parseTreeCase(c, doc)
 		})
 	}
 }
